@@ -346,7 +346,9 @@ def main(prop: str, tier: str = "quick") -> int:
         exit_code = 3
 
     required = [o for o in by_oid if o not in known_oids]
-    n_oblig = len(required) + len(unsupported)
+    # `obligations` = obligations generated and decided by the SMT back end on this run; targets that left the supported
+    # subset generate none (they are listed under `undecided` / `bounded`, with their bounded stand-in, never counted)
+    n_oblig = len(required)
     n_disch = len([o for o in discharged if o not in known_oids])
     samples = []
     for oid in list(discharged)[:3]:
@@ -355,7 +357,7 @@ def main(prop: str, tier: str = "quick") -> int:
                         "smt2_head": (rec.get("smt2") or "")[:1200]})
     for rec in violations[:2]:
         samples.append({"obligation": rec["oid"], "verdict": "sat", "model": rec.get("model"), "note": rec.get("note")})
-    level = "proof"
+    level = "proof" if n_disch == n_oblig and n_oblig > 0 else "other"
     evidence = {
         "property_id": prop, "tier": tier, "seed": seed, "level": level,
         "coverage": {
